@@ -236,3 +236,19 @@ PROPS["C08"] = dict(
     assumptions=ASSUME_COMMON + ["scrypt opslimit/memlimit below the documented minima are not rejected by design (opslimit is clamped; pinned tests use small memlimits), so only outlen is range-checked there",
                                  "for $7$ strings only structural malformation (length, parameter characters) must give needs_rehash == -1; salt/hash characters are not validated by the format"],
 )
+
+PROPS["C09"] = dict(
+    name="c09", sources=["props/c09.cpp"], engine="rapidcheck (operation histories) + enumerator", libs=["-lrapidcheck"],
+    builds=[("asan", "native")],
+    builds_thorough=[("asan", "native"), ("asan", "noasm"), ("asan", "portable")],
+    level="exploration",
+    rule=("rapidcheck generates operation histories (1..24 ops, thorough 1..200; the whole list shrinks as one value) over {push(tag in MESSAGE/PUSH/REKEY/FINAL/arbitrary byte, mlen from a block-boundary mixture 0..700, "
+          "ad NULL/0..80), explicit rekey, rekey with a desynchronisation probe, genuine pull, and deviating pulls: replayed earlier chunk, skip-ahead, truncation by 1..17 bytes, bit flip, altered/dropped ad, chunk of a "
+          "second stream with the same key, chunk of a stream with another key (both positioned at the same counter), chunk shorter than ABYTES}, starting at chunk counter 1 or 2^32-k (k=1..4, written into the public "
+          "state structs) so that the automatic rekey on wrap is reached. One pusher, one puller and two model states run in lock step. Invariants after every step: pushed chunk == documented ChaCha20-Poly1305 construction "
+          "byte for byte (incl. the padding quirk), both library state structs == model state, genuine pull returns the pushed message/length/tag, every deviating pull returns -1 with mlen 0, tag 0xff, untouched "
+          "message buffer and unchanged state; after the history all outstanding chunks must still be accepted in order. Deterministic part: every message length 0..700 with each tag and start counter, every bit of a "
+          "57-byte chunk flipped, wrap reached by pushing from 2^32-k. Non-trivial = history with a rekey (explicit, tagged or by wrap) or a rejected pull followed by further pulls; distinct = (start counter, op list)."),
+    exhaustive_axes="message lengths 0..700; all bit positions of one chunk; start counters 2^32-k for k=1..4",
+    assumptions=ASSUME_COMMON,
+)
